@@ -2,7 +2,8 @@
    handed out by the tar iterator (strm_get_buffered_data / strm_advance_buffer),
    it_next (record_size / padding accounting, canonicalize_name, entry
    construction), and of the main loops of bin/sqfs2tar/src/sqfs2tar.c
-   (write_entry / write_file_data / terminate_archive) and
+   (write_entry incl. the xattr list reversal / write_file_data /
+   terminate_archive) and
    bin/tar2sqfs/src/process_tarball.c (mtime clamp, --root-becomes).
    Definitions only. *)
 From Coq Require Import List NArith ZArith Bool.
@@ -110,12 +111,23 @@ Record tentry := mkte {
 
 Definition is_reg (m : N) : bool := ftype m =? S_IFREG.
 
+(* sqfs2tar's write_entry, header part.  [te_xattr t] is the xattr list in the
+   order the image stores it (what it->read_xattr returns).  The tar reader
+   builds its list back to front, so write_entry reverses the list before it
+   hands it to write_tar_header (fix F23): records [b,a] read back as [a,b]. *)
+Definition write_entry_hdr (t : tentry) (counter : N) : wres :=
+  write_tar_header (te_e t) (te_target t) (rev (te_xattr t)) counter.
+
+(* the unrepaired write_entry handed the image's list over as it was *)
+Definition write_entry_hdr_old (t : tentry) (counter : N) : wres :=
+  write_tar_header (te_e t) (te_target t) (te_xattr t) counter.
+
 (* sqfs2tar: write_entry for every entry, skipping what tar cannot express *)
 Fixpoint write_entries (es : list tentry) (counter : N) : list N :=
   match es with
   | [] => []
   | t :: r =>
-    match write_tar_header (te_e t) (te_target t) (te_xattr t) counter with
+    match write_entry_hdr t counter with
     | W_Unsupported => write_entries r (counter + 1)
     | W_Ok b =>
       b ++ (if is_reg (e_mode (te_e t)) && negb (e_hardlink (te_e t))
@@ -125,6 +137,22 @@ Fixpoint write_entries (es : list tentry) (counter : N) : list N :=
   end.
 
 Definition write_archive (es : list tentry) : list N := write_entries es 0 ++ zeros 1024.
+
+(* the same loop around the unrepaired write_entry (refutation witness only) *)
+Fixpoint write_entries_old (es : list tentry) (counter : N) : list N :=
+  match es with
+  | [] => []
+  | t :: r =>
+    match write_entry_hdr_old t counter with
+    | W_Unsupported => write_entries_old r (counter + 1)
+    | W_Ok b =>
+      b ++ (if is_reg (e_mode (te_e t)) && negb (e_hardlink (te_e t))
+            then te_data t ++ padding (e_size (te_e t)) else [])
+        ++ write_entries_old r (counter + 1)
+    end
+  end.
+
+Definition write_archive_old (es : list tentry) : list N := write_entries_old es 0 ++ zeros 1024.
 
 Inductive ra_res :=
 | RA_Ok (es : list tentry)
@@ -184,6 +212,38 @@ Definition read_archive (s : list N) : ra_res := read_entries (S (length s)) s.
 (* ---------- tar2sqfs: process_tarball's per-entry transformation ---------- *)
 Definition clamp_mtime (t : Z) : Z :=
   if (t <? 0)%Z then 0%Z else if (4294967295 <? t)%Z then 4294967295%Z else t.
+
+(* One entry on its way tar iterator -> tar2sqfs -> image -> sqfs2tar's
+   iterator, i.e. what sqfs2tar's write_entry is handed for an entry the tar
+   iterator delivered: the time stamp is clamped to 32 bit (process_tarball),
+   a directory gets its trailing '/' back (bin/sqfs2tar/src/iterator.c), link
+   target, file contents and the xattr list IN THE ORDER OF THE DECODED LIST
+   (copy_xattr walks the list front to back, the image keeps that order) are
+   kept.  The tree building in between (fstree, image codec) is not modelled:
+   that this is what the tools do is checked by the tool-level oracle. *)
+Definition is_dir (m : N) : bool := ftype m =? S_IFDIR.
+
+Definition reimage (t : tentry) : tentry :=
+  let e := te_e t in
+  mkte (mkentry (if is_dir (e_mode e) then e_name e ++ [47] else e_name e)
+                (e_mode e) (e_uid e) (e_gid e) (e_size e) (clamp_mtime (e_mtime e))
+                (e_rdev e) (e_hardlink e))
+       (te_target t) (te_xattr t) (te_data t).
+
+(* one conversion round at archive level: sqfs2tar writes the entries of an
+   image, tar2sqfs reads the archive into a new image *)
+Definition convert (es : list tentry) : ra_res :=
+  match read_archive (write_archive es) with
+  | RA_Ok vs => RA_Ok (map reimage vs)
+  | x => x
+  end.
+
+(* the same with the unrepaired sqfs2tar *)
+Definition convert_old (es : list tentry) : ra_res :=
+  match read_archive (write_archive_old es) with
+  | RA_Ok vs => RA_Ok (map reimage vs)
+  | x => x
+  end.
 
 (* --root-becomes <root>: None = entry dropped; Some (is_root, name, link) *)
 Definition strip_root (root name : list N) : option (bool * list N) :=
